@@ -207,7 +207,7 @@ func (ch c06) Run(c *core.Ctx) {
 		// pipelined: identical bytes and callback trace
 		sess := &hs.Sess{Progs: map[string]*hs.Prog{}}
 		var all []byte
-		for _, m := range h {
+		for _, m := range xPrepare(c, h) {
 			if (m.K == "parse" || m.K == "query") && m.Prog != nil {
 				sess.Progs[m.Query] = m.Prog
 			}
